@@ -1,6 +1,7 @@
 from __future__ import annotations
 
 import calendar
+import copyreg
 import datetime
 import traceback
 
@@ -1374,13 +1375,14 @@ class DateTime(datetime.datetime, Date):
     ]:
         return self.__reduce_ex__(2)
 
-    def __reduce_ex__(
+    def __reduce_ex__(  # type: ignore[override]
         self, protocol: SupportsIndex
-    ) -> tuple[
-        type[Self],
-        tuple[int, int, int, int, int, int, int, datetime.tzinfo | None],
-    ]:
-        return self.__class__, self._getstate(protocol)
+    ) -> tuple[Any, ...]:
+        # fold is keyword-only: it cannot travel with the positional state
+        return (
+            copyreg.__newobj_ex__,  # type: ignore[attr-defined]
+            (self.__class__, self._getstate(protocol), {"fold": self.fold}),
+        )
 
     def __deepcopy__(self, _: dict[int, Self]) -> Self:
         return self.__class__(
